@@ -127,9 +127,9 @@ def figure (T : Tr) (name : String) (o : Opts) (ins : List Inp) : Option (List S
     let anyBig := rel.any fun r => r.any fun b => 1 < b.2.2       -- np.max(n) > 1
     some (main ++ (if !o.simple && anyBig then rel.map fun r => line 1 "_" (r.map (·.1)) (r.map fun b => XR.ofNat b.2.2) else []))
   | "invreliability" =>
-    some (perInput (fun k i =>
-      let r := reliabilitySeries 2 (o.r.getD []) (invrelCases (get1 i "obs") (get1 i "q"))
-      [line 0 (inName k) (r.map (·.1)) (r.map (·.2.1))]) ins)
+    -- in<k> carries obs<t>, q<t>: the valid cases of the t-th level of -q
+    some (invreliabilityFigure (o.r.getD [])
+      ((o.q.getD []).zipIdx.map fun q => ins.map fun i => (get1 i s!"obs{q.2}", get1 i s!"q{q.2}")))
   | "discrimination" =>
     let edges := o.q.getD tenths
     some (perInput (fun k i =>
